@@ -1,1 +1,56 @@
-// harness module (child of the mirrored module)
+// Contract and proof harness for contracts/example/src/contract.rs.
+use super::*;
+use soroban_sdk::shim::{self, inst, pers, temp, Wordy, Words};
+use soroban_sdk::{BytesN, Symbol};
+
+#[kani::proof]
+fn c16_example_execute() {
+    let env = Env::default();
+    let _h = shim::fresh_host();
+    let me = env.current_contract_address();
+    let (sc, mid, sa) = (String::symbolic(), String::symbolic(), String::symbolic());
+    let payload = Bytes::symbolic();
+
+    Example::execute(env.clone(), sc.clone(), mid.clone(), sa.clone(), payload.clone());
+
+    let gateway: Option<Address> = inst().pre(&DataKey::Gateway);
+    let ph: BytesN<32> = env.crypto().keccak256(&payload).into();
+    assert!(
+        matches!(&gateway, Some(g) if shim::n_calls() == 1 && shim::call_is(0, g, "validate_message", &(me.clone(), sc.clone(), mid.clone(), sa.clone(), ph))),
+        "OBL C16.example_asks_gateway: the configured gateway is asked to consume exactly (this app, source chain, message id, source address, keccak256(payload))"
+    );
+    assert!(
+        shim::n_calls() == 1 && shim::call_ret::<bool>(0),
+        "OBL C16.example_validates: the app's effects happen only if the gateway consumed an approval (validate_message returned true)"
+    );
+    assert!(
+        shim::n_events() == 1 && shim::event_is(0, &(Symbol::new(&env, "executed"), sc.clone(), mid.clone(), sa.clone()), &(payload.clone(),)) && shim::call_seq(0) < shim::event_seq(0),
+        "OBL C16.example_effect_after_validation: one `executed` event with the delivered values, after validation"
+    );
+    kani::cover!(true, "COVER example execute returned");
+}
+
+#[kani::proof]
+fn c07_example_send() {
+    let env = Env::default();
+    let _h = shim::fresh_host();
+    let me = env.current_contract_address();
+    let caller = Address::symbolic();
+    let (chain, dest) = (String::symbolic(), String::symbolic());
+    let message = Bytes::symbolic();
+    let gas_token = Token { address: Address::symbolic(), amount: kani::any() };
+
+    Example::send(env.clone(), caller.clone(), chain.clone(), dest.clone(), message.clone(), gas_token.clone());
+
+    let gateway: Option<Address> = inst().pre(&DataKey::Gateway);
+    let gas: Option<Address> = inst().pre(&DataKey::GasService);
+    assert!(shim::authed(&caller), "OBL C07.example_send_needs_caller: gas is charged to `caller` only under the caller's authorisation");
+    assert!(
+        matches!((&gateway, &gas), (Some(gw), Some(gs)) if shim::n_calls() == 2
+            && shim::call_is(0, gs, "pay_gas", &(me.clone(), chain.clone(), dest.clone(), message.clone(), caller.clone(), gas_token.clone(), Bytes::new(&env)))
+            && shim::call_is(1, gw, "call_contract", &(me.clone(), chain.clone(), dest.clone(), message.clone()))),
+        "OBL C07.example_send_calls: pays gas from the caller and sends as itself, same destination and payload"
+    );
+    assert!(shim::auth_seq(&caller) < shim::call_seq(0), "OBL C07.example_send_auth_first");
+    kani::cover!(true, "COVER example send returned");
+}
